@@ -1,0 +1,318 @@
+//! Verification hooks (compiled only with `--cfg evalexpr_verif`).
+//!
+//! When the environment variable `EVALEXPR_VERIF_TRACE` names a file, every top-level
+//! precompilation and evaluation appends one JSON line to it: the source or the operator tree,
+//! a projection of the context before and after, the result, the user-function calls
+//! (identifier, argument, result) and the operands every operator was applied to.
+//! Without the variable nothing is recorded.  The lines are self-contained, so several
+//! threads and processes may append to the same file.
+
+use std::{
+    cell::{Cell, RefCell},
+    fmt::{Debug, Write as _},
+    io::Write as _,
+    sync::{Mutex, OnceLock},
+};
+
+use crate::{value::numeric_types::EvalexprNumericTypes, Node, Operator, Value};
+
+thread_local! {
+    static DEPTH: Cell<usize> = const { Cell::new(0) };
+    static IN_USER_FUNCTION: Cell<usize> = const { Cell::new(0) };
+    static CALLS: RefCell<String> = const { RefCell::new(String::new()) };
+    static OPERANDS: RefCell<String> = const { RefCell::new(String::new()) };
+}
+
+fn sink() -> Option<&'static Mutex<std::fs::File>> {
+    static SINK: OnceLock<Option<Mutex<std::fs::File>>> = OnceLock::new();
+    SINK.get_or_init(|| {
+        let path = std::env::var_os("EVALEXPR_VERIF_TRACE")?;
+        std::fs::OpenOptions::new()
+            .create(true)
+            .append(true)
+            .open(path)
+            .ok()
+            .map(Mutex::new)
+    })
+    .as_ref()
+}
+
+fn emit(line: String) {
+    if let Some(sink) = sink() {
+        if let Ok(mut file) = sink.lock() {
+            let _ = file.write_all(line.as_bytes());
+        }
+    }
+}
+
+fn recording() -> bool {
+    sink().is_some() && DEPTH.with(Cell::get) == 1 && IN_USER_FUNCTION.with(Cell::get) == 0
+}
+
+fn code_points(out: &mut String, text: &str) {
+    out.push('[');
+    for (index, c) in text.chars().enumerate() {
+        if index > 0 {
+            out.push(',');
+        }
+        let _ = write!(out, "{}", c as u32);
+    }
+    out.push(']');
+}
+
+fn value<N: EvalexprNumericTypes>(out: &mut String, v: &Value<N>) {
+    match v {
+        Value::String(s) => {
+            out.push_str("{\"t\":\"String\",\"c\":");
+            code_points(out, s);
+            out.push('}');
+        },
+        Value::Float(f) => {
+            out.push_str("{\"t\":\"Float\",\"d\":");
+            code_points(out, &format!("{:?}", f));
+            out.push('}');
+        },
+        Value::Int(i) => {
+            out.push_str("{\"t\":\"Int\",\"d\":");
+            code_points(out, &format!("{:?}", i));
+            out.push('}');
+        },
+        Value::Boolean(b) => {
+            let _ = write!(out, "{{\"t\":\"Boolean\",\"b\":{}}}", b);
+        },
+        Value::Tuple(t) => {
+            out.push_str("{\"t\":\"Tuple\",\"k\":");
+            values(out, t);
+            out.push('}');
+        },
+        Value::Empty => out.push_str("{\"t\":\"Empty\"}"),
+    }
+}
+
+fn values<N: EvalexprNumericTypes>(out: &mut String, vs: &[Value<N>]) {
+    out.push('[');
+    for (index, v) in vs.iter().enumerate() {
+        if index > 0 {
+            out.push(',');
+        }
+        value(out, v);
+    }
+    out.push(']');
+}
+
+fn result<T, E: Debug>(out: &mut String, r: &Result<T, E>, ok: impl FnOnce(&mut String, &T)) {
+    match r {
+        Ok(v) => {
+            out.push_str("{\"p\":\"val\",\"v\":");
+            ok(out, v);
+            out.push('}');
+        },
+        Err(e) => {
+            out.push_str("{\"p\":\"err\",\"d\":");
+            code_points(out, &format!("{:?}", e));
+            out.push('}');
+        },
+    }
+}
+
+fn operator_name<N: EvalexprNumericTypes>(o: &Operator<N>) -> String {
+    let debug = format!("{:?}", o);
+    debug
+        .split(|c: char| !c.is_alphanumeric())
+        .next()
+        .unwrap_or("")
+        .to_string()
+}
+
+fn tree<N: EvalexprNumericTypes>(out: &mut String, node: &Node<N>) {
+    let _ = write!(out, "{{\"o\":\"{}\"", operator_name(node.operator()));
+    match node.operator() {
+        Operator::Const { value: v } => {
+            out.push_str(",\"v\":");
+            value(out, v);
+        },
+        Operator::VariableIdentifierWrite { identifier }
+        | Operator::VariableIdentifierRead { identifier }
+        | Operator::FunctionIdentifier { identifier } => {
+            out.push_str(",\"n\":");
+            code_points(out, identifier);
+        },
+        _ => {},
+    }
+    out.push_str(",\"k\":[");
+    for (index, child) in node.children().iter().enumerate() {
+        if index > 0 {
+            out.push(',');
+        }
+        tree(out, child);
+    }
+    out.push_str("]}");
+}
+
+/// The projection of a context with variables: `kind`, the builtin switch, the variables and the function names.
+pub(crate) fn snapshot<'a, N: EvalexprNumericTypes + 'a>(
+    kind: &str,
+    builtins_disabled: bool,
+    variables: impl Iterator<Item = (&'a String, &'a Value<N>)>,
+    functions: impl Iterator<Item = &'a String>,
+) -> Option<String> {
+    sink()?;
+    let mut out = String::new();
+    let _ = write!(
+        out,
+        "{{\"kind\":\"{}\",\"nb\":{},\"vars\":[",
+        kind, builtins_disabled
+    );
+    for (index, (name, v)) in variables.enumerate() {
+        if index > 0 {
+            out.push(',');
+        }
+        out.push_str("{\"n\":");
+        code_points(&mut out, name);
+        out.push_str(",\"v\":");
+        value(&mut out, v);
+        out.push('}');
+    }
+    out.push_str("],\"funcs\":[");
+    for (index, name) in functions.enumerate() {
+        if index > 0 {
+            out.push(',');
+        }
+        code_points(&mut out, name);
+    }
+    out.push_str("]}");
+    Some(out)
+}
+
+/// `build_operator_tree` returned.
+pub(crate) fn built<N: EvalexprNumericTypes, E: Debug>(source: &str, r: &Result<Node<N>, E>) {
+    if sink().is_none() || DEPTH.with(Cell::get) != 0 || IN_USER_FUNCTION.with(Cell::get) != 0 {
+        return;
+    }
+    let mut out = String::new();
+    let _ = write!(
+        out,
+        "{{\"ev\":\"build\",\"nt\":\"{}\",\"src\":",
+        std::any::type_name::<N>()
+    );
+    code_points(&mut out, source);
+    out.push_str(",\"res\":");
+    result(&mut out, r, tree);
+    out.push_str("}\n");
+    emit(out);
+}
+
+/// A user function of a `HashMapContext` is about to run: evaluations it performs itself are not recorded.
+pub(crate) struct UserFunction;
+
+impl UserFunction {
+    pub(crate) fn enter() -> Self {
+        IN_USER_FUNCTION.with(|c| c.set(c.get() + 1));
+        UserFunction
+    }
+
+    /// The user function returned.
+    pub(crate) fn leave<N: EvalexprNumericTypes, E: Debug>(
+        self,
+        identifier: &str,
+        argument: &Value<N>,
+        r: &Result<Value<N>, E>,
+    ) {
+        drop(self);
+        if !recording() {
+            return;
+        }
+        CALLS.with(|calls| {
+            let mut out = calls.borrow_mut();
+            if !out.is_empty() {
+                out.push(',');
+            }
+            out.push_str("{\"n\":");
+            code_points(&mut out, identifier);
+            out.push_str(",\"a\":");
+            value(&mut out, argument);
+            out.push_str(",\"r\":");
+            result(&mut out, r, value);
+            out.push('}');
+        });
+    }
+}
+
+impl Drop for UserFunction {
+    fn drop(&mut self) {
+        IN_USER_FUNCTION.with(|c| c.set(c.get() - 1));
+    }
+}
+
+/// An operator is about to be applied to these operands.
+pub(crate) fn operands<N: EvalexprNumericTypes>(o: &Operator<N>, arguments: &[Value<N>]) {
+    if !recording() {
+        return;
+    }
+    OPERANDS.with(|operands| {
+        let mut out = operands.borrow_mut();
+        if !out.is_empty() {
+            out.push(',');
+        }
+        let _ = write!(out, "{{\"o\":\"{}\",\"a\":", operator_name(o));
+        values(&mut out, arguments);
+        out.push('}');
+    });
+}
+
+/// A top-level evaluation of an operator tree.
+pub(crate) struct Evaluation {
+    before: Option<String>,
+}
+
+impl Evaluation {
+    /// `Some` for the outermost evaluation on this thread (while recording), `None` for the recursive calls.
+    pub(crate) fn enter(before: impl FnOnce() -> Option<String>) -> Option<Self> {
+        if sink().is_none() || DEPTH.with(Cell::get) != 0 || IN_USER_FUNCTION.with(Cell::get) != 0 {
+            return None;
+        }
+        DEPTH.with(|d| d.set(1));
+        CALLS.with(|c| c.borrow_mut().clear());
+        OPERANDS.with(|c| c.borrow_mut().clear());
+        Some(Evaluation { before: before() })
+    }
+
+    /// The outermost evaluation returned.
+    pub(crate) fn leave<N: EvalexprNumericTypes, E: Debug>(
+        mut self,
+        mode: &str,
+        node: &Node<N>,
+        after: Option<String>,
+        r: &Result<Value<N>, E>,
+    ) {
+        let before = self.before.take();
+        drop(self);
+        let mut out = String::new();
+        let _ = write!(
+            out,
+            "{{\"ev\":\"eval\",\"nt\":\"{}\",\"mode\":\"{}\",\"tree\":",
+            std::any::type_name::<N>(),
+            mode
+        );
+        tree(&mut out, node);
+        let _ = write!(
+            out,
+            ",\"pre\":{},\"post\":{},\"res\":",
+            before.as_deref().unwrap_or("null"),
+            after.as_deref().unwrap_or("null")
+        );
+        result(&mut out, r, value);
+        out.push_str(",\"log\":[");
+        CALLS.with(|c| out.push_str(&c.borrow()));
+        out.push_str("],\"ops\":[");
+        OPERANDS.with(|c| out.push_str(&c.borrow()));
+        out.push_str("]}\n");
+        emit(out);
+    }
+}
+
+impl Drop for Evaluation {
+    fn drop(&mut self) {
+        DEPTH.with(|d| d.set(0));
+    }
+}
